@@ -4,7 +4,7 @@ import Lattigo.Model.Codec
 /-
   C08 line protocol.
 
-  Value trees (no spaces): `_` unit · decimal number · `x<hex>` opaque bytes (`x` = empty) ·
+  Value trees (no spaces): `_` unit · decimal number · `x<hex>` opaque bytes (`x` = empty) · `i<int>` signed field (`i-1`) ·
   `(a,b)` pair (`(a,b,c)` = `(a,(b,c))`) · `[a,b,…]` list (`[]` empty) · `~` nil optional ·
   `?v` present optional.
 
@@ -29,6 +29,14 @@ partial def parseVal : List Char → Option (Val × List Char)
   | '?' :: r => do
       let (v, r') ← parseVal r
       some (.some v, r')
+  | 'i' :: '-' :: r =>
+      let ds := r.takeWhile Char.isDigit
+      if ds.isEmpty then none
+      else some (.int (-((String.ofList ds).toNat! : Int)), r.dropWhile Char.isDigit)
+  | 'i' :: r =>
+      let ds := r.takeWhile Char.isDigit
+      if ds.isEmpty then none
+      else some (.int ((String.ofList ds).toNat! : Int), r.dropWhile Char.isDigit)
   | 'x' :: r =>
       let hexs := r.takeWhile (fun c => hexDigit? c |>.isSome)
       let rest := r.dropWhile (fun c => hexDigit? c |>.isSome)
@@ -74,6 +82,7 @@ partial def showVal : Val → String
   | .list vs => "[" ++ ",".intercalate (vs.map showVal) ++ "]"
   | .none => "~"
   | .some v => "?" ++ showVal v
+  | .int z => "i" ++ toString z
 where
   /-- pairs print right-nested without inner parentheses: `(a,b,c)` -/
   showTail : Val → String
